@@ -46,7 +46,11 @@ int main(void)
 	    int rounds = atoi(w[3]);
 	    bool bs = sys_is_bytestream(proto);
 	    struct trio t;
-	    if (sys_establish(proto, &t, NULL, NULL) < 0) { fprintf(o, "fail %s\n", h_errname(errno)); fflush(o); continue; }
+	    struct xcm_attr_map *cx = xcm_attr_map_create();
+	    if (strstr(proto, "tcp") || strstr(proto, "tls")) xcm_attr_map_add_double(cx, "tcp.connect_timeout", 0.1);
+	    int erc = sys_establish(proto, &t, cx, NULL);
+	    xcm_attr_map_destroy(cx);
+	    if (erc < 0) { fprintf(o, "fail %s\n", h_errname(errno)); fflush(o); continue; }
 	    int fd_c = xcm_fd(t.client), fd_a = xcm_fd(t.accepted), fd_s = xcm_fd(t.server);
 	    int other = 0, changed = 0;
 	    static char big[50000];
@@ -64,6 +68,26 @@ int main(void)
 		if (xcm_fd(t.client) != fd_c || xcm_fd(t.accepted) != fd_a || xcm_fd(t.server) != fd_s) changed++;
 	    }
 	    settle(&t);
+	    /* (0) condition 0 standing (never changed): back-pressure leaves a message in the client's send buffer, the peer
+	       then drains, and the client completes the flush with xcm_finish ONLY - no xcm_await, no other call - and must be
+	       quiet afterwards; so must be an established client connection after its connect timeout has passed */
+	    {
+		static char rb[70000];
+		bool owed = false;
+		memset(big, 'z', sizeof(big));
+		for (int i = 0; i < 400; i++) { if (xcm_send(t.client, big, bs ? sizeof(big) : 30000) < 0) { owed = errno == EAGAIN; break; } }
+		for (int i = 0; i < 6000; i++) {
+		    int rrc = xcm_receive(t.accepted, rb, sizeof(rb));
+		    /* a byte-stream application retries the refused call with the same data (what OpenSSL demands of btls) */
+		    if (bs && owed && xcm_send(t.client, big, sizeof(big)) > 0) owed = false;
+		    int frc = xcm_finish(t.client);
+		    if (rrc < 0 && errno == EAGAIN && frc == 0 && !(bs && owed) && i > 50) break;
+		    if (rrc < 0 && errno != EAGAIN) break;
+		    if (rrc < 0) usleep(200);
+		}
+	    }
+	    usleep(120000);
+	    int qp = sample(t.client, 30, &other);
 	    /* (1) condition 0: quiet */
 	    xcm_await(t.client, 0); xcm_await(t.accepted, 0); xcm_await(t.server, 0);
 	    int q0 = sample(t.client, 30, &other) + sample(t.accepted, 30, &other) + sample(t.server, 10, &other);
@@ -71,7 +95,9 @@ int main(void)
 	    char b[64]; int r1 = xcm_receive(t.client, b, sizeof(b)); int e1 = errno;
 	    int r2 = xcm_receive(t.accepted, b, sizeof(b)); int e2 = errno;
 	    xcm_await(t.client, XCM_SO_RECEIVABLE); xcm_await(t.accepted, XCM_SO_RECEIVABLE);
-	    int q1 = sample(t.client, 30, &other) + sample(t.accepted, 30, &other);
+	    int q1c = sample(t.client, 30, &other), q1a = sample(t.accepted, 30, &other);
+	    int q1 = q1c + q1a;
+	    if (getenv("QUIET_DEBUG")) fprintf(stderr, "quietR client=%d accepted=%d\n", q1c, q1a);
 	    bool eagain_ok = r1 < 0 && e1 == EAGAIN && r2 < 0 && e2 == EAGAIN;
 	    /* (3) server awaiting ACCEPTABLE with nothing pending: quiet */
 	    xcm_await(t.server, XCM_SO_ACCEPTABLE);
@@ -98,8 +124,36 @@ int main(void)
 	    int m3 = sample(t.server, 1, &other);
 	    if (c2) xcm_close(c2);
 	    if (xcm_fd(t.client) != fd_c || xcm_fd(t.accepted) != fd_a || xcm_fd(t.server) != fd_s) changed++;
-	    fprintf(o, "quiet0=%d quietR=%d eagain=%d quietS=%d quiet0data=%d quiet0conn=%d metS=%d metR=%d(%d) metA=%d other=%d fdchanged=%d\n",
-		    q0, q1, eagain_ok, q2, q3, q4, m1, m2, r3, m3, other, changed);
+	    fprintf(o, "quiet0pre=%d quiet0=%d quietR=%d eagain=%d quietS=%d quiet0data=%d quiet0conn=%d metS=%d metR=%d(%d) metA=%d other=%d fdchanged=%d\n",
+		    qp, q0, q1, eagain_ok, q2, q3, q4, m1, m2, r3, m3, other, changed);
+	    sys_close_trio(&t);
+	} else if (!strcmp(w[0], "STUCK") && n == 2) {
+	    /* STUCK <proto>: a byte-stream send is refused (EAGAIN) under back-pressure and the application does NOT retry it;
+	       the peer reads everything that was accepted; both ends then finish successfully and await RECEIVABLE */
+	    const char *proto = w[1];
+	    struct trio t;
+	    if (sys_establish(proto, &t, NULL, NULL) < 0) { fprintf(o, "fail %s\n", h_errname(errno)); fflush(o); continue; }
+	    static char big[50000], rb[70000];
+	    long acc = 0, got = 0; int other = 0;
+	    memset(big, 'q', sizeof(big));
+	    for (int i = 0; i < 4000; i++) { int rc = xcm_send(t.client, big, sizeof(big)); if (rc < 0) break; acc += rc; }
+	    int fa = -1, fc = -1, e1 = 0;
+	    for (int i = 0; i < 20000; i++) {
+		int r = xcm_receive(t.accepted, rb, sizeof(rb)); e1 = errno;
+		fc = xcm_finish(t.client); fa = xcm_finish(t.accepted);
+		if (r > 0) got += r;
+		if (r < 0 && e1 == EAGAIN && fc == 0 && fa == 0 && got >= acc && i > 200) break;
+		if (r < 0 && e1 != EAGAIN) break;
+		if (r < 0) usleep(100);
+	    }
+	    int rc0 = xcm_receive(t.client, rb, sizeof(rb)); int ec0 = errno;
+	    if (!(rc0 < 0 && ec0 == EAGAIN)) fc = -2;
+	    xcm_await(t.client, XCM_SO_RECEIVABLE); xcm_await(t.accepted, XCM_SO_RECEIVABLE);
+	    usleep(50000);
+	    int qc = sample(t.client, 30, &other), qa = sample(t.accepted, 30, &other);
+	    int r2 = xcm_receive(t.accepted, rb, sizeof(rb)); int e2 = errno;
+	    fprintf(o, "accepted=%ld delivered=%ld finish=%d,%d spin_client=%d spin_accepted=%d receive=%s\n", acc, got, fc, fa, qc, qa,
+		    r2 < 0 ? h_errname(e2) : r2 == 0 ? "0" : "data");
 	    sys_close_trio(&t);
 	} else
 	    fputs("bad-op\n", o);
